@@ -631,7 +631,7 @@ impl Property for C02 {
         vec![("concurrent", 3), ("sequential", 1)]
     }
     fn budget(&self) -> (u64, u64) {
-        (60_000, 2_000_000)
+        (300_000, 6_000_000)
     }
     fn rule(&self) -> &'static str {
         "concurrent: 2-3 direct sessions x 1-3 ops of {set,set-safe v,increment,get-safe,remove} on 1-2 keys of a strategy-none database on a node booted by the real start_db, every lock/atomic a preemption point; sequential: 2-12 ops with version arguments {-1,cur-2,cur-1,cur,cur+1,large}. A case is non-trivial when at least two clients' operations on one key overlapped in time (concurrent) or a versioned write hit an existing key (sequential); distinct = distinct (program, task-switch sequence) hash."
